@@ -111,10 +111,12 @@ def pos_weights(n):
 
 @st.composite
 def curves(draw, pmin=0, pmax=4, kmax=4, rational=None, dim=None, nums=("frac",),
-           interval=None, grid=None, degree=None, values=None, regimes=None, negweights=True):
+           interval=None, grid=None, degree=None, values=None, regimes=None, negweights=True, wfactor=None):
     """A curve case dict {'U','p','P','w','num'}."""
     if regimes is None:
         regimes = "std" if interval is None and values is None else False  # callers that fix interval / values keep them
+    if wfactor is None:
+        wfactor = regimes is not False
     U, p = draw(knotvectors(pmin, pmax, kmax, interval, grid, degree=degree))
     n = len(U) - p - 1
     P = draw(ctrlpoints(n, dim, values))
@@ -156,6 +158,10 @@ def curves(draw, pmin=0, pmax=4, kmax=4, rational=None, dim=None, nums=("frac",)
                 w = [x * 10 ** 10 for x in w]
             elif wk == "nearly-equal":
                 w = [1 + x / 10 ** 11 for x in w]
+    if w is not None and wfactor and draw(st.integers(0, 5)) == 0:
+        # weights are homogeneous, in every number profile: the same curve with a common factor on all weights
+        f = draw(st.sampled_from([F(1, 10 ** 6), F(1, 10 ** 4), F(1, 1000), F(1000), F(10 ** 4), F(10 ** 6)]))
+        w = [x * f for x in w]
     out = {"U": U, "p": p, "P": P, "w": w, "num": num}
     if isinstance(P[0], list) and draw(st.integers(0, 3)) == 0:
         # the control points handed over as a list of separate arrays; equal points are the same object
